@@ -227,7 +227,7 @@ func (ex *Exec) callFunction(fr *Frame, st *State, callee *ssa.Function, args []
 	if r, ok := ex.intrinsic(fr, st, name, callee, args, retT, site); ok {
 		return r
 	}
-	if c := ex.prog.contractByName(name); c != nil && (ex.rootFn != callee || len(ex.stack) > 1) && !c.InlineOnly {
+	if c := ex.prog.contractByName(name); c != nil && !c.InlineOnly {
 		return ex.callSpec(fr, st, c, args, retT, site)
 	}
 	if spec := ex.prog.externFor(name); spec != nil {
